@@ -162,3 +162,91 @@ Print Assumptions C19_formats_agree.
 From FG.gen Require Import Sites_gen.
 Theorem C19_sites_recognised : forallb (fun b => b) sites_C19 = true.
 Proof. vm_compute. reflexivity. Qed.
+
+(* ---- appended by tools/mkprops.py: Legality of book moves with the real notation parsers as resolver (BookLegal.v) ---- *)
+(** Legality of book moves with the real notation parsers as resolver (BookLegal.v): the hypothesis resolve_legal of BookProofs is discharged *)
+From Coq Require Import NArith ZArith List Bool Permutation.
+From FG Require Import Geom Rules FenSpec NotationImpl NotationProofs BookModel BookProofs BookLegal.
+Import ListNotations.
+
+Theorem C19_parse_token_sound :
+  forall (p : pos) (s : str) (m : mv), parse_token p s = Some m -> In m (legal p).
+Proof. exact parse_token_sound. Qed.
+
+Theorem C19_resolve_notation_legal :
+  forall (key : pos -> N) (posof : N -> option pos) (k : N) (t : str) (mv nk : N),
+         resolve_notation key posof k t = Some (mv, nk) -> legal_at posof k mv /\ nk = succ_at key posof k mv.
+Proof. exact resolve_notation_legal. Qed.
+
+Theorem C19_book_moves_legal_once_notation :
+  forall (key : pos -> N) (posof : N -> option pos) (root : N) (games : list (option (list str)))
+           (sched : list step) (b : nmap.Nmap entry),
+         Interleave (map (game_steps (resolve_notation key posof) root) games) sched ->
+         run root sched (init_book root) = Some b ->
+         forall (k : N) (e : entry),
+         base.lookup k b = Some e ->
+         (forall mv nk : N,
+          In (mv, nk) (succs e) ->
+          legal_at posof k mv /\ nk = succ_at key posof k mv /\ option.is_Some (base.lookup nk b)) /\
+         (forall (i j : nat) (mv n1 n2 : N),
+          nth_error (succs e) i = Some (mv, n1) -> nth_error (succs e) j = Some (mv, n2) -> i = j).
+Proof. exact book_moves_legal_once_notation. Qed.
+
+Theorem C19_book_edges_sound_notation :
+  forall (key : pos -> N) (posof : N -> option pos) (root : N) (games : list (option (list str)))
+           (sched : list step) (b : nmap.Nmap entry),
+         Interleave (map (game_steps (resolve_notation key posof) root) games) sched ->
+         run root sched (init_book root) = Some b ->
+         forall (k : N) (e : entry) (mv0 nk : N),
+         base.lookup k b = Some e ->
+         In (mv0, nk) (succs e) ->
+         (exists (g : option (list str)) (t : str) (p : pos) (m : mv),
+            In g games /\
+            In (SAdd k nk mv0) (game_steps (resolve_notation key posof) root g) /\
+            posof k = Some p /\
+            parse_token p t = Some m /\ In m (legal p) /\ mv0 = code m /\ nk = key (make p m)) /\
+         option.is_Some (base.lookup nk b) /\ nk <> root.
+Proof. exact book_edges_sound_notation. Qed.
+
+Theorem C19_book_edges_legal_threaded :
+  forall (key : pos -> N) (start : pos) (games : list (option (list str))) (sched : list step)
+           (b : nmap.Nmap entry),
+         Interleave (map (game_steps_pos key start) games) sched ->
+         run (key start) sched (init_book (key start)) = Some b ->
+         forall (k : N) (e : entry) (mv0 nk : N),
+         base.lookup k b = Some e ->
+         In (mv0, nk) (succs e) ->
+         (exists (q : pos) (m : mv) (t : str),
+            on_path start q /\
+            k = key q /\ parse_token q t = Some m /\ In m (legal q) /\ mv0 = code m /\ nk = key (make q m)) /\
+         option.is_Some (base.lookup nk b) /\ nk <> key start.
+Proof. exact book_edges_legal_threaded. Qed.
+
+Theorem C19_book_moves_legal_once_threaded :
+  forall (key : pos -> N) (start : pos) (games : list (option (list str))) (sched : list step)
+           (b : nmap.Nmap entry),
+         key_ignores_clocks key ->
+         NoColl key (visited start games) ->
+         let posof := posof_of key (visited start games) in
+         Interleave (map (game_steps_pos key start) games) sched ->
+         run (key start) sched (init_book (key start)) = Some b ->
+         forall (k : N) (e : entry),
+         base.lookup k b = Some e ->
+         (forall mv nk : N,
+          In (mv, nk) (succs e) ->
+          legal_at posof k mv /\ nk = succ_at key posof k mv /\ option.is_Some (base.lookup nk b)) /\
+         (forall (i j : nat) (mv n1 n2 : N),
+          nth_error (succs e) i = Some (mv, n1) -> nth_error (succs e) j = Some (mv, n2) -> i = j).
+Proof. exact book_moves_legal_once_threaded. Qed.
+
+Theorem C19_walk_ipos_eq :
+  forall (t : PosImpl.tabs) (toks : list str) (ip : PosImpl.ipos),
+         PosProofs.Reach t ip ->
+         (length (PosImpl.i_hist ip) + length toks <= 512)%nat ->
+         walk_ipos t ip toks = walk_pos (PosProofsA.key_of t) (PosImpl.abs ip) toks.
+Proof. exact walk_ipos_eq. Qed.
+
+Print Assumptions C19_parse_token_sound.
+Print Assumptions C19_resolve_notation_legal.
+Print Assumptions C19_book_moves_legal_once_notation.
+Print Assumptions C19_book_edges_legal_threaded.
